@@ -39,6 +39,12 @@ func TestC19(t *testing.T) {
 			}
 		}
 
+		rolledBack := false
+		if rapid.IntRange(0, 2).Draw(t, "rolledBackUpdate") == 0 {
+			// governance passed a proposal with ten times the amounts whose second message failed: rolled back
+			rolledBack = rolledBackMinterUpdate(w.App, ctx.WithBlockTime(nsTime(lo)), params)
+		}
+
 		query := func(at int64) sdk.Dec {
 			resp, err := w.App.CfeminterKeeper.Inflation(sdk.WrapSDKContext(ctx.WithBlockTime(nsTime(at))), &mintertypes.QueryInflationRequest{})
 			if err != nil {
@@ -63,6 +69,9 @@ func TestC19(t *testing.T) {
 			ps = *sched.Periods[k-1].End
 		}
 		classes := []string{"kind_" + p.Kind.String()}
+		if rolledBack {
+			classes = append(classes, "schedule_update_executed_and_rolled_back")
+		}
 		if unbonding {
 			classes = append(classes, "coins_in_the_not_bonded_pool")
 		}
